@@ -49,7 +49,11 @@ def make_program(K, profile):
         if ok and profile.get("data_fault"):
             ok = inject_data_fault(prog, K.rng("datafault", tries))
         tries += 1
-        if ok or tries > 40:
+        if not ok and tries > 40 and need:
+            # the requested shape is too rare for this configuration: fall back to any clean one
+            # (what a profile forbids stays forbidden: soundness of twin comparisons rests on it)
+            profile = dict(profile, require_features=None)
+        if ok or tries > 120:
             prog["_features"] = feats
             prog["_tries"] = tries
             prog["_ok"] = ok
